@@ -33,8 +33,11 @@ import (
 	"verifharness/hx"
 )
 
-// slack is the "about" of the property's comparison bound (see run).
-const slack = 2
+// The comparison bounds judged in run are the ones proved for the model (Props/C06.lean: compares_find,
+// compares_insert, compares_remove_le with height_run) plus the property's own allowance of E equal entries, read as in
+// DESIGN Appendix B ("height + duplicates + 1 with height <= 2*log2(n+1)"). The bounded traversals are not part of the
+// property's comparison clause (their cost includes the visit); they get the proved n plus travSlack as a sanity bound.
+const travSlack = 2
 
 // shadow is the harness's own, library-independent record of what one tree must contain: per equivalence class of
 // the compare function the keys in insertion order (a removal takes the oldest). It provides n and E of the
@@ -302,10 +305,10 @@ func (a *area) run(line string) string {
 	// computed from n = number of inserted-and-not-removed entries before the operation and, for lookups/removals, the
 	// number E of those entries whose key compares equal to the probe (both from the harness's own shadow record, not
 	// from the library):
-	//   Get / Remove              c <= 2*floor(log2(n+1)) + E + slack
-	//   Insert                    c <= 2*floor(log2(n+1)) + 1 + slack
-	//   (Reverse)TraverseStartingAt  c <= n + slack
-	// with slack = 2. The exact count is appended as ` c=N` for information only (the check strips it before comparing).
+	//   Get / Remove              c <= 2*floor(log2(n+1)) + E + 1
+	//   Insert                    c <= 2*floor(log2(n+1)) + 1
+	//   (Reverse)TraverseStartingAt  c <= n + 2
+	// The exact count is appended as ` c=N` for information only (the check strips it before comparing).
 	n := s.shadow.n
 	logTerm := 2 * (bits.Len(uint(n+1)) - 1)
 	judge := func(bound int) string {
@@ -341,7 +344,7 @@ func (a *area) run(line string) string {
 			return "cmp-panic"
 		}
 		s.shadow.insert(s.class(key), key)
-		return "done" + judge(logTerm+1+slack)
+		return "done" + judge(logTerm+1)
 	case (f[0] == "rem" || f[0] == "prem") && len(f) == 2:
 		key := hx.Atoi(f[1])
 		e := len(s.shadow.classes[s.class(key)])
@@ -363,7 +366,7 @@ func (a *area) run(line string) string {
 		if s.tree.Count() != before {
 			what = "removed"
 		}
-		return what + judge(logTerm+e+slack)
+		return what + judge(logTerm+e+1)
 	case (f[0] == "get" || f[0] == "pget") && len(f) == 2:
 		key := hx.Atoi(f[1])
 		e := len(s.shadow.classes[s.class(key)])
@@ -381,7 +384,7 @@ func (a *area) run(line string) string {
 			}
 			return "cmp-panic"
 		}
-		return optStr(v, ok) + judge(logTerm+e+slack)
+		return optStr(v, ok) + judge(logTerm+e+1)
 	case f[0] == "first" && len(f) == 1:
 		return optStr(s.tree.First())
 	case f[0] == "last" && len(f) == 1:
@@ -400,12 +403,12 @@ func (a *area) run(line string) string {
 		v := &visitor{limit: hx.Atoi(f[2])}
 		s.calls = 0
 		s.tree.TraverseStartingAt(hx.Atoi(f[1]), v.visit)
-		return v.String() + judge(n+slack)
+		return v.String() + judge(n+travSlack)
 	case f[0] == "rtravfrom" && len(f) == 3:
 		v := &visitor{limit: hx.Atoi(f[2])}
 		s.calls = 0
 		s.tree.ReverseTraverseStartingAt(hx.Atoi(f[1]), v.visit)
-		return v.String() + judge(n+slack)
+		return v.String() + judge(n+travSlack)
 	case (f[0] == "ptrav" || f[0] == "prtrav") && len(f) == 3,
 		(f[0] == "ptravfrom" || f[0] == "prtravfrom") && len(f) == 4:
 		// a visitor that panics at its j-th visit (kind = panic value), or (kind reent) that never panics, stops after j
